@@ -41,10 +41,34 @@ class ListSpacing(str, Enum):
 
 def _normalize_title_quotes(title: str) -> str:
     """
-    Normalize title quotes.
+    Normalize title quotes: the title of a link or image (its parsed content, without
+    delimiters and with escapes resolved) as a double-quoted title.
     """
-    escaped = title.strip('"').replace('"', '\\"')
+    escaped = title.replace("\\", "\\\\").replace('"', '\\"')
     return f'"{escaped}"'
+
+
+def _normalize_raw_title_quotes(raw_title: str) -> str:
+    """
+    Normalize the title of a link reference definition, which Marko keeps as written
+    (with its delimiters `"…"`, `'…'` or `(…)` and with its escapes), to double quotes.
+    """
+    if len(raw_title) >= 2 and raw_title[0] == '"' and raw_title[-1] == '"':
+        return raw_title
+    if len(raw_title) >= 2 and raw_title[0] + raw_title[-1] in ("''", "()"):
+        inner = raw_title[1:-1]
+        parts: list[str] = []
+        i = 0
+        while i < len(inner):
+            if inner[i] == "\\" and i + 1 < len(inner):
+                # An escape stays as written.
+                parts.append(inner[i : i + 2])
+                i += 2
+                continue
+            parts.append('\\"' if inner[i] == '"' else inner[i])
+            i += 1
+        return '"' + "".join(parts) + '"'
+    return _normalize_title_quotes(raw_title)
 
 
 def _min_fence_length(code_content: str, fence_char: str = "`") -> int:
@@ -552,7 +576,7 @@ class MarkdownNormalizer(Renderer):
         """
         link_text = element.dest
         if element.title:
-            link_text += f" {_normalize_title_quotes(element.title)}"
+            link_text += f" {_normalize_raw_title_quotes(element.title)}"
         result = f"{self._prefix}[{element.label}]: {link_text}\n"
         self._prefix = self._second_prefix
         self._suppress_item_break = True
@@ -572,7 +596,12 @@ class MarkdownNormalizer(Renderer):
         link_title = _normalize_title_quotes(element.title) if element.title else None
         assert self.root_node
         label = next(
-            (k for k, v in self.root_node.link_ref_defs.items() if v == (element.dest, link_title)),
+            (
+                k
+                for k, v in self.root_node.link_ref_defs.items()
+                if (v[0], _normalize_raw_title_quotes(v[1]) if v[1] else None)
+                == (element.dest, link_title)
+            ),
             None,
         )
         if label is not None:
